@@ -22,6 +22,11 @@ type HistOpts struct {
 	// strings. It reaches what small files cannot: level runs beyond 63
 	// bit-packed groups, snappy blocks beyond 64 KiB, buffer growth.
 	LargePct int
+	// ManyPct: percent of histories drawn from the "many row groups" class
+	// instead: 10..ManyMax batches of 1..3 records (slice growth, accounting
+	// that only breaks beyond some count).
+	ManyPct int
+	ManyMax int
 }
 
 // GenHistory draws a writer history from the batch-shape grammar: batch sizes
@@ -51,6 +56,18 @@ func GenHistory(r *Rng, o HistOpts) *WriterSpec {
 	}
 	sh := GetShape(w.Shape)
 	nb := r.Range(o.MinBatches, o.MaxBatches)
+	many := false
+	if o.ManyPct > 0 && !w.Large && r.Intn(100) < o.ManyPct {
+		many = true
+		w.Many = true
+		mm := o.ManyMax
+		if mm < 10 {
+			mm = 80
+		}
+		nb = r.Range(10, mm)
+		o.MaxOps = 3 * mm
+		w.Page = r.Range(1, 4)
+	}
 	adds := 0
 	size := func() int {
 		p := w.Page
@@ -75,6 +92,9 @@ func GenHistory(r *Rng, o HistOpts) *WriterSpec {
 		}
 		if n < 1 {
 			n = 1
+		}
+		if many {
+			n = r.Range(1, 3)
 		}
 		return n
 	}
